@@ -91,6 +91,7 @@ class State(object):
         self.notes = []
         self.owned = set([0])        # region ids whose Region object is private to this state (copy-on-write)
         self.side_owned = set()      # side-table keys whose model object is private to this state
+        self.distinct = []           # harness assumptions (Bool terms) that hold in this state
 
     def mut(self, rid):
         """Region object that may be mutated (copy-on-write across clones)"""
@@ -124,6 +125,7 @@ class State(object):
         s.mem = dict(self.mem)
         s.side = dict(self.side)
         s.side_owned = set()
+        s.distinct = list(self.distinct)
         s.events = list(self.events)
         s.pc = list(self.pc)
         s.next_rid = self.next_rid
@@ -443,8 +445,8 @@ class Ex(object):
         if n < len(self.schedule):
             b = self.schedule[n]
         else:
-            b = True
-            self.pending.append(self.decisions + [False])
+            b = getattr(self, 'default_decision', True)
+            self.pending.append(self.decisions + [not b])
         self.decisions.append(b)
         st.pc.append((cond, b))
         return b
@@ -934,7 +936,7 @@ class Ex(object):
 
     # ------------------------------------------------------------------------------------------
     # path exploration
-    def explore(self, st0, thunk, max_paths=256):
+    def explore(self, st0, thunk, max_paths=256, default=True, limit=None):
         """thunk(ex) runs the code under test on ex.st (a clone of st0) and returns a value.
         Returns list of dict(pc, ret, st, terminal, error)."""
         out = []
@@ -943,6 +945,7 @@ class Ex(object):
             sched = work.pop()
             self.st = st0.clone()
             self.schedule = sched
+            self.default_decision = default
             self.decisions = []
             self.pending = []
             self.depth = 0
@@ -957,9 +960,13 @@ class Ex(object):
             res['st'] = self.st
             res['pc'] = list(self.st.pc)
             out.append(res)
+            if limit is not None and len(out) >= limit:
+                self.default_decision = True
+                return out
             work.extend(self.pending)
             if len(out) + len(work) > max_paths:
                 raise UnwindBound('more than %d paths' % max_paths)
+        self.default_decision = True
         return out
 
 
